@@ -74,8 +74,20 @@ def run(tier):
                 R.violation(pr[0], it['site'], pr[1], {'function': it['disp']})
             if len(R.samples) < 10 and kinds[it['kind']] <= 2:
                 R.sample({'kind': it['kind'], 'function': it['disp'][:200], 'paths': it['rows']})
+    # (f) apply mode of every successful sub-match equals the documented expansion's (EQUIV, strict mode)
+    from . import c09
+    ep = core.extract(list(units.EQUIV))
+    er = repo_units.map_units('sa.checks.c09', 'analyse_unit', ep, extra=(8, sorted(set(c09.C09_RULES) | set(c09.CLASSICAL))))
+    for p in ep:
+        for b in er[p]['broken']: R.broke(b)
+        for it in er[p]['items']:
+            probs = [q for q in it['problems'] if q[0] == 'E-mode']
+            kinds['equiv-mode'] = kinds.get('equiv-mode', 0) + 1
+            R.ob(ok=not probs, key=('equiv-mode', it['rule'], it['mode']))
+            for q in probs:
+                R.violation('E-mode', 'rule %s' % it['rule'].replace('tao::pegtl::', ''), q[1], {'documented expansion': it['expr'], 'answer history': q[2]}, key=('E-mode', it['rule'], it['mode']))
     R.cov['obligations_by_kind'] = kinds
-    floors = {'dispatch': 60, 'normal-hook': 8, 'apply-rule': 8, 'action-input': 6, 'frame': 150}
+    floors = {'dispatch': 60, 'normal-hook': 8, 'apply-rule': 8, 'action-input': 6, 'frame': 150, 'equiv-mode': 200}
     for k, v in floors.items():
         if kinds.get(k, 0) < v: R.broke('only %d %s obligations (floor %d)' % (kinds.get(k, 0), k, v))
     R.assumptions = ['the run-level statement (sequence of all invocations of a successful run) is the composition of this per-attempt protocol with C01/C02 and is not explored as a trace property',
